@@ -27,6 +27,8 @@ type shadowFS struct {
 	// snaps[i] = state after the first i events have taken effect
 	snaps []map[string]shadowFile
 	sdirs []map[string]bool
+	// kinds[i] = "<kind> <path>" of event number i (the event that leads from snaps[i] to the next state)
+	kinds []string
 }
 
 func newShadowFS() *shadowFS {
@@ -50,6 +52,7 @@ func (s *shadowFS) snapshot() {
 // events, i.e. snapshot number len(snaps).
 func (s *shadowFS) fileEvent(kind, path string, data []byte, n int64) {
 	s.snapshot()
+	s.kinds = append(s.kinds, kind+" "+path)
 	f, ok := s.files[path]
 	switch kind {
 	case "open":
@@ -81,6 +84,7 @@ func (s *shadowFS) fileEvent(kind, path string, data []byte, n int64) {
 
 func (s *shadowFS) fsEvent(kind, a, b string) {
 	s.snapshot()
+	s.kinds = append(s.kinds, kind+" "+a)
 	switch kind {
 	case "mkdir":
 		s.dirs[a] = true
@@ -356,6 +360,71 @@ func (r *EngineRunner) crashLines(f []string, emit func(line, res string)) {
 		sort.Ints(ks)
 	}
 	mmap := r.opts.FileIOType == fio.MemoryMap
+	// os.RemoveAll unlinks the entries of the merge directory one by one: a process that dies inside it
+	// leaves any subset behind.  At every removal of a non-empty merge directory: images in which single
+	// entries, all entries but the finished-marker, and all data files but one are already gone.
+	for k := from; k < to && k < len(r.shadow.kinds); k++ {
+		if r.shadow.kinds[k] != "removeall "+r.mergeDir() {
+			continue
+		}
+		files, _ := r.shadow.at(k)
+		var names []string
+		for p := range files {
+			if filepath.Dir(p) == r.mergeDir() {
+				names = append(names, p)
+			}
+		}
+		sort.Strings(names)
+		if len(names) == 0 {
+			continue
+		}
+		var variants [][]string
+		for i, p := range names {
+			if i < 3 || i >= len(names)-2 {
+				variants = append(variants, []string{p})
+			}
+		}
+		var butMarker, dataButLast []string
+		lastData := ""
+		for _, p := range names {
+			if strings.HasSuffix(p, ".data") {
+				lastData = p
+			}
+		}
+		for _, p := range names {
+			if !strings.Contains(filepath.Base(p), "merge-fin") {
+				butMarker = append(butMarker, p)
+			}
+			if strings.HasSuffix(p, ".data") && p != lastData {
+				dataButLast = append(dataButLast, p)
+			}
+		}
+		if len(butMarker) > 0 && len(butMarker) < len(names) {
+			variants = append(variants, butMarker)
+		}
+		if len(dataButLast) > 0 {
+			variants = append(variants, dataButLast)
+		}
+		for _, gone := range variants {
+			root, err := os.MkdirTemp(r.Root, "img")
+			if err != nil {
+				continue
+			}
+			if err := r.shadow.materialize(k, r.dir(), root, func(p string, sf shadowFile) int64 { return -1 }); err != nil {
+				_ = os.RemoveAll(root)
+				continue
+			}
+			var toks []string
+			for _, p := range gone {
+				_ = os.Remove(filepath.Join(root, "db-merge", filepath.Base(p)))
+				toks = append(toks, r.fileName(p))
+			}
+			res, d1, d2 := r.openImage(root, cfg)
+			_ = os.RemoveAll(root)
+			r.crashOracle(k, "none", res, d1, d2)
+			emit(fmt.Sprintf("E crashrm %d %s %s", k, strings.Join(toks, ","), strings.Join(cfg, " ")), res)
+		}
+	}
 	for _, k := range ks {
 		cuts := []string{"none"}
 		if !mmap {
